@@ -2,7 +2,7 @@
 """seedkeep.py <ID> <dirname> <needs> <caught_by> : copy a confirmed seeded change into /verif/seeded/<dirname>/"""
 import sys, os, shutil, json, subprocess
 ID, name, needs, caught = sys.argv[1:5]
-src = f'/tmp/seed/{ID}/SEED_OUT'
+import os as _os; ROOT=_os.environ.get('SEEDROOT','/tmp/seed'); src = f'{ROOT}/{ID}/SEED_OUT'
 dst = f'/verif/seeded/{name}'
 os.makedirs(dst, exist_ok=True)
 for f in os.listdir(src):
@@ -13,7 +13,7 @@ for f in os.listdir(src):
         shutil.copytree(s, os.path.join(dst, f), dirs_exist_ok=True)
     else:
         shutil.copy(s, dst)
-log = open(f'/tmp/seed/{ID}.confirm.log').read() if os.path.exists(f'/tmp/seed/{ID}.confirm.log') else ''
+log = open(f'{ROOT}/{ID}.confirm.log').read() if os.path.exists(f'{ROOT}/{ID}.confirm.log') else ''
 conf = [l for l in log.splitlines() if l.startswith('demo exit') or l.startswith('test result')]
 meta = {
     'property': ID,
